@@ -168,3 +168,158 @@ class World:
         if m is None:
             raise AnalysisError(f"{cls.name}.{method} not found")
         return self.I.call_function(FuncV(fi=m, node=m.node, module=m.module), args, kwargs or {}, m.node, self.state)
+
+
+# ======================================================================================
+# abstract input classes of the malformed-argument grammar (C13) and option classes
+# ======================================================================================
+
+TEAMS_CLASSES = [
+    # (name, well_formed)
+    ("teams:well-formed", True),
+    ("teams:not-a-list(object)", False),
+    ("teams:not-a-list(None)", False),
+    ("teams:not-a-list(tuple-of-teams)", False),
+    ("teams:not-a-list(number)", False),
+    ("teams:empty-list", False),
+    ("teams:one-team", False),
+    ("teams:one-element-not-a-list(object)", False),
+    ("teams:one-element-not-a-list(None)", False),
+    ("teams:one-element-not-a-list(tuple-of-ratings)", False),
+    ("teams:one-element-not-a-list(rating)", False),
+    ("teams:one-empty-team", False),
+    ("teams:one-player-not-a-rating(object)", False),
+    ("teams:one-player-not-a-rating(None)", False),
+    ("teams:one-player-not-a-rating(number)", False),
+    ("teams:one-player-not-a-rating(list)", False),
+]
+
+NUMLIST_CLASSES = [
+    # (name, status) status: 'ok' well-formed & given, 'absent' (treated as not given), 'bad' malformed
+    ("None", "absent"),
+    ("empty-list", "absent"),
+    ("list-of-int", "ok"),
+    ("list-of-float", "ok"),
+    ("list-of-bool", "ok"),
+    ("list-of-mixed-int-float-bool", "ok"),
+    ("truthy-non-list(object)", "bad"),
+    ("truthy-non-list(number)", "bad"),
+    ("truthy-non-list(str)", "bad"),
+    ("truthy-non-list(tuple-of-numbers)", "bad"),
+    ("list-of-wrong-length", "bad"),
+    ("list-with-one-non-number(str)", "bad"),
+    ("list-with-one-non-number(None)", "bad"),
+    ("list-with-one-non-number(object)", "bad"),
+    ("list-with-one-non-number(list)", "bad"),
+]
+
+
+def build_teams(w: World, cls_name: str, foreign=None) -> Val:
+    """Abstract `teams` argument of the given class. `foreign` = Rating ClassInfo of another model."""
+    b = w.box
+    st = w.state
+    if cls_name == "teams:well-formed":
+        return w.make_teams()
+    if cls_name == "teams:not-a-list(object)":
+        return Opaque("object", True)
+    if cls_name == "teams:not-a-list(None)":
+        return NoneV()
+    if cls_name == "teams:not-a-list(number)":
+        return Num(kinds=frozenset({"int"}))
+    if cls_name == "teams:not-a-list(tuple-of-teams)":
+        w.make_teams()
+        s = st.heap[L_TEAMS].obj.seq
+        return replace(s, kind="tuple")
+    if cls_name == "teams:empty-list":
+        st.heap[L_TEAMS] = Cell(ListObj(Seq(Length.const(0), Top("empty"), "kT", ())), (), (), "input:teams", None)
+        return Ptr(L_TEAMS, ())
+    if cls_name == "teams:one-team":
+        w.make_teams(n=(1, 1))
+        return w.teams
+    # otherwise: a list of >= 2 valid teams in which one element (at an unknown position) is bad
+    w.make_teams()
+    bad: Val
+    kind = cls_name
+    if kind == "teams:one-element-not-a-list(object)":
+        bad = Opaque("object", True)
+    elif kind == "teams:one-element-not-a-list(None)":
+        bad = NoneV()
+    elif kind == "teams:one-element-not-a-list(tuple-of-ratings)":
+        bad = Seq(Length(("len", "IN.badteam", ()), 1, b.players[1]), Ptr(L_PLAYER, (("*",), ivar("kB"))), "kB", None, None, frozenset(), "tuple")
+    elif kind == "teams:one-element-not-a-list(rating)":
+        w.make_rating_object("IN.strayplayer", (), (), origin="input:player")
+        bad = Ptr("IN.strayplayer", ())
+    elif kind == "teams:one-empty-team":
+        st.heap["IN.badteam"] = Cell(ListObj(Seq(Length.const(0), Top("empty"), "kB", ())), (), (), "input:team", None)
+        bad = Ptr("IN.badteam", ())
+    else:
+        # a team with >= 1 players in which one (unknown position) is not an own-model rating
+        if kind == "teams:one-player-not-a-rating(object)":
+            badp: Val = Opaque("object", True)
+        elif kind == "teams:one-player-not-a-rating(None)":
+            badp = NoneV()
+        elif kind == "teams:one-player-not-a-rating(number)":
+            badp = Num(kinds=frozenset({"float"}))
+        elif kind == "teams:one-player-not-a-rating(list)":
+            st.heap["IN.badplayerlist"] = Cell(ListObj(Seq(Length.const(0), Top("empty"), "kL", ())), (), (), "input:junk", None)
+            badp = Ptr("IN.badplayerlist", ())
+        elif kind.startswith("teams:one-player-foreign-rating"):
+            w.make_rating_object("IN.foreign", (), (), rating_cls=foreign, origin="input:foreign-player")
+            badp = Ptr("IN.foreign", ())
+        else:
+            raise AnalysisError(f"unknown teams class {kind}")
+        m_len = Length(("len", "IN.badteam", ()), 1, b.players[1])
+        st.heap["IN.badteam"] = Cell(
+            ListObj(Seq(m_len, Ptr(L_PLAYER, (("*",), ivar("kB"))), "kB", None, badp)), (), (), "input:team", None
+        )
+        bad = Ptr("IN.badteam", ())
+    c = st.heap[L_TEAMS]
+    st.heap[L_TEAMS] = replace(c, obj=ListObj(replace(c.obj.seq, witness=bad)))
+    return w.teams
+
+
+def build_numlist(w: World, cls_name: str, loc: str, tag: str) -> Val:
+    st = w.state
+    if cls_name == "None":
+        return NoneV()
+    if cls_name == "empty-list":
+        st.heap[loc] = Cell(ListObj(Seq(Length.const(0), Top("empty"), "kR", ())), (), (), f"input:{tag.lower()}", None)
+        return Ptr(loc, ())
+    if cls_name.startswith("list-of-"):
+        kinds = {
+            "list-of-int": {"int"},
+            "list-of-float": {"float"},
+            "list-of-bool": {"bool"},
+            "list-of-mixed-int-float-bool": {"int", "float", "bool"},
+            "list-of-wrong-length": {"int", "float", "bool"},
+        }[cls_name]
+        if cls_name == "list-of-wrong-length":
+            p = w.make_number_list(loc, tag=tag, kinds=frozenset(kinds), same_len_as_teams=False)
+            # definitely a different length than teams
+            a = ("lenterm", ("len", loc, ()))
+            bsym = ("lenterm", ("len", L_TEAMS, ()))
+            st.rel_set(a, bsym, frozenset({"LT", "GT"}))
+            return p
+        return w.make_number_list(loc, tag=tag, kinds=frozenset(kinds))
+    if cls_name == "truthy-non-list(object)":
+        return Opaque("object", True)
+    if cls_name == "truthy-non-list(number)":
+        return Num(kinds=frozenset({"int"}), rng=Interval(1.0, INF, False, True), prov=frozenset({tag}), sym=("param", loc))
+    if cls_name == "truthy-non-list(str)":
+        return Str("abc")
+    if cls_name == "truthy-non-list(tuple-of-numbers)":
+        p = w.make_number_list(loc, tag=tag)
+        return replace(st.heap[loc].obj.seq, kind="tuple")
+    if cls_name.startswith("list-with-one-non-number"):
+        bad: Val
+        if cls_name.endswith("(str)"):
+            bad = Str("1")
+        elif cls_name.endswith("(None)"):
+            bad = NoneV()
+        elif cls_name.endswith("(object)"):
+            bad = Opaque("object", True)
+        else:
+            st.heap[loc + ".junk"] = Cell(ListObj(Seq(Length.const(0), Top("empty"), "kL", ())), (), (), "input:junk", None)
+            bad = Ptr(loc + ".junk", ())
+        return w.make_number_list(loc, tag=tag, witness=bad)
+    raise AnalysisError(f"unknown number-list class {cls_name}")
